@@ -1040,3 +1040,5 @@ RULE += (' Added: make_value functions that raise StopIteration for one cell (hi
          'fail, not return fewer points); a ToCSV run abandoned (closed / dropped / failed '
          'consumer) right after a value with a context option, followed by a new run of the element.')
 RULE += (' Added: csv separators made of braces, format directives and a backslash.')
+
+RULE += (' Round 10: histograms of 65..2100 (1-d), 9..50 squared, 5..13 cubed cells for scale, set_nevents, hist_to_graph.')
